@@ -7,7 +7,7 @@ import (
 	"os"
 	"strconv"
 
-	_ "github.com/goplus/gogen/verif/internal/checks"
+	"github.com/goplus/gogen/verif/internal/checks"
 	"github.com/goplus/gogen/verif/internal/h"
 )
 
@@ -25,6 +25,8 @@ func main() {
 		for _, id := range h.IDs() {
 			fmt.Println(id)
 		}
+	case "corpus":
+		checks.CorpusReport(len(os.Args) > 2)
 	case "run":
 		if len(os.Args) < 4 {
 			usage()
